@@ -1110,7 +1110,7 @@ def rule_unwrap(ctx, o):
                 return False, note_
         if a[1] in ctx.prog.bodies:
             return conv_accepts(ctx, o.bb, a[1], inner_args[0]) if len(inner_args) == 1 else (False, "workspace call result unwrapped")
-        if s == "<impl [T]>::last" or s == "<impl [T]>::first":
+        if s in ("<impl [T]>::last", "<impl [T]>::first", "<impl [T]>::split_last", "<impl [T]>::split_first"):
             lp = seq_len_poly(ctx, inner_args[0])
             if lp is not None:
                 return ctx.prove_ge0(o.bb, lp - Poly.const(1))
